@@ -194,6 +194,24 @@ func knownUnits() []knownUnit {
 			Subject: sub("go", []string{"template=raw_struct"}, mkFile("a.thrift", "pa", none, strct("S"), tdef("T", tRef(0, "S"))))},
 		{ID: "X8", Expect: "fail", Note: "fastgo: typedef of a list as an argument type: BLength declares a loop variable it does not use",
 			Subject: sub("fastgo", nil, mkFile("a.thrift", "pa", none, tdef("L", tList(i32)), svc("V", nil, fnVoid("m", []*idlgen.Field{fd(1, "a", tRef(0, "L"))}, nil))))},
+		{ID: "D9c", Expect: "fail", Note: "fastgo: package b shadowed by the buffer parameter where the package qualifies a TYPE (list element): b.S1 is not a type",
+			Subject: sub("fastgo", nil,
+				mkFile("a.thrift", "pa", []int{1}, strct("S", fd(1, "l", tList(tRef(1, "T1"))))),
+				mkFile("b.thrift", "", none, strct("T1")))},
+		{ID: "S3", Expect: "fail", Note: "escaped single quote inside a double-quoted literal is copied into the Go string: unknown escape sequence",
+			Subject: sub("go", nil, mkFile("a.thrift", "pa", none, cdef("s", str, cStr(`a\'b`))))},
+		{ID: "X9", Expect: "fail", Note: "go namespace whose last segment is init: `cannot import package as init` (the import manager aliases collisions with its own names only)",
+			Subject: sub("go", nil,
+				mkFile("a.thrift", "pa", []int{1}, strct("S", fd(1, "x", tRef(1, "T")))),
+				mkFile("b.thrift", "x.init", none, strct("T")))},
+		{ID: "X10", Expect: "fail", Note: "constant whose map key type is a typedef of binary of another file: key type becomes string, the import registered for the typedef is unused",
+			Subject: sub("go", nil,
+				mkFile("a.thrift", "pa", []int{1}, cdef("C", tMap(tRef(1, "B"), boo), cMap())),
+				mkFile("b.thrift", "pb", none, tdef("B", bin)))},
+		{ID: "X11", Expect: "fail", Note: "minted identifier of one file vs a definition of another file of the same go namespace (each file has its own Scope.globals)",
+			Subject: sub("go", nil,
+				mkFile("a.thrift", "p", []int{1}, strct("SvcClientProtocol")),
+				mkFile("b.thrift", "p", none, svc("Svc", nil)))},
 		{ID: "X5", Expect: "fail", Note: "union U with a member count_set_fields_u: field and method CountSetFieldsU (buildStructLike reserves CountSetFields, the template declares CountSetFields<T>)",
 			Subject: sub("go", nil, mkFile("a.thrift", "pa", none, &idlgen.Struct{Kind: 'u', Name: "U", Fields: []*idlgen.Field{fd(1, "count_set_fields_u", i32)}}))},
 	}
